@@ -40,7 +40,7 @@ def dispatch(args):
         warm_up()
         if args.replay:
             return driver.replay_file(eng, args.replay)
-        n = args.runs or (3000 if args.tier == "quick" else 60000)
+        n = args.runs or (2400 if args.tier == "quick" else 60000)
         tasks = driver.seeds_for(args.seed, "C12", n)
         return driver.run_check(eng, "C12", args.tier, args.seed, tasks, args.workers, time_budget=args.budget)
     if what in ("C11", "C20"):
@@ -52,5 +52,12 @@ def dispatch(args):
         n = args.runs or ({"C11": 4000, "C20": 5000}[what] if args.tier == "quick" else {"C11": 150000, "C20": 200000}[what])
         tasks = [{**t, "cfg": {"profile": profile}} for t in driver.seeds_for(args.seed, what, n)]
         return driver.run_check(eng, what, args.tier, args.seed, tasks, args.workers, time_budget=args.budget)
+    if what == "C09":
+        from . import bussim as eng
+        if args.replay:
+            return driver.replay_file(eng, args.replay)
+        n = args.runs or (20000 if args.tier == "quick" else 1000000)
+        tasks = driver.seeds_for(args.seed, "C09", n)
+        return driver.run_check(eng, "C09", args.tier, args.seed, tasks, args.workers, time_budget=args.budget)
     print(f"unknown check {what!r}")
     return EXIT_HARNESS
